@@ -97,7 +97,8 @@ func genC19(r *kit.RNG) *C19Scenario {
 	case 2:
 		sc.Networks = []string{"bogus/99"}
 	}
-	clients := []string{"10.1.1.1", "10.1.2.2", "10.2.0.9", "192.168.7.7", "2001:db8::1", "2001:db9::5"}
+	// (the mapped forms are the same IPv4 hosts as a dual-stack listener reports them)
+	clients := []string{"10.1.1.1", "10.1.2.2", "10.2.0.9", "192.168.7.7", "2001:db8::1", "2001:db9::5", "::ffff:10.1.1.1", "::ffff:10.2.0.9"}
 	// 198.51.0.9 and 2001:db8:1::7 sit at the start of the shorter prefixes of their neighbours
 	// (198.51.7.7/16 and 198.51.0.9/24 share the network address 198.51.0.0)
 	subnets4 := []string{"198.51.100.77", "198.51.100.200", "198.51.101.1", "198.51.7.7", "203.0.113.5", "198.51.0.9"}
@@ -185,6 +186,7 @@ func (p c19Policy) allows(client netip.Addr) bool {
 	if !p.valid {
 		return false
 	}
+	client = client.Unmap()
 	if len(p.nets) == 0 {
 		return true
 	}
